@@ -93,6 +93,42 @@ def text_pool(seed):
                         ReportDef(id="r2", name="money", columns=["id", "name", "cost"], formats=["csv"], leafonly=True)][: 1 + k % 2]
         texts.append(("valid%d" % k, render(spec)))
     texts.extend(siblings)
+    # a project in which one backward task runs out of room after it has booked part of its effort, and one
+    # forward task cannot finish before the (capped) horizon: the state a failed placement leaves behind
+    texts.append(("overrun", f"""project prj "P" 2025-01-06 +2w {{
+  timingresolution 60min
+}}
+resource r0 "r0" {{
+  rate {10 + seed % 7}
+}}
+resource r1 "r1" {{
+  rate 20
+  limits {{ weeklymax {2 + seed % 3}h }}
+}}
+task a "a" {{
+  effort {4 + seed % 5}h
+  allocate r0
+}}
+task late "late" {{
+  effort {50 + seed % 11}h
+  allocate r0
+  scheduling alap
+  end 2025-01-08-17:00
+}}
+task b "b" {{
+  effort 4h
+  allocate r0
+  depends a
+}}
+task slow "slow" {{
+  effort 4000h
+  allocate r1
+}}
+taskreport r1 "sched" {{
+  formats json, csv
+  columns id, start, end, cost
+}}
+"""))
     fx = sorted(os.listdir(os.path.join(boot.REPO, "tests", "data")))
     for name in [f for f in fx if f.endswith(".tjp")][seed % 5:: 9][:2]:
         with open(os.path.join(boot.REPO, "tests", "data", name), errors="replace") as f:
